@@ -35,7 +35,7 @@ func pick[T any](r *rand.Rand, xs []T) T { return xs[r.Intn(len(xs))] }
 
 func genSettings(r *rand.Rand, profile string) *node.Settings {
 	s := node.DefaultSettings()
-	s.Timeout = 40 * time.Millisecond
+	s.Timeout = 250 * time.Millisecond
 	s.Interval = pick(r, []int64{int64(time.Second), int64(time.Minute), 5 * int64(time.Minute)})
 	s.MinFee = pick(r, []uint64{1, 2, 1000})
 	s.BlocksLimit = pick(r, []uint64{3, 4, 5, 7, 100, 100})
@@ -670,7 +670,11 @@ func (sc *scenario) run(maxOps int) {
 				w.Tick(p, sc.clock)
 				continue
 			}
-			v := w.Tick(p, sc.clock)
+			ts := sc.clock
+			if last := p.Chain.LastBlockTimestamp(); ts < last {
+				ts = last + S.Interval // a clock never runs backwards (C20); ticks before the tip are exercised by profile offgrid only
+			}
+			v := w.Tick(p, ts)
 			if v.Info["tick"] == "produced" && v.Info["included"] != "0" && v.Info["included"] != "" {
 				sc.mark("block-with-tx")
 			}
